@@ -26,6 +26,7 @@ Step(e) ==
       [] e.op = "comp"  -> CompromiseA(e.h1, e.h2, e.cut, e.t)
       [] e.op = "rt"    -> RoundtripA(e.h, e.t)
       [] e.op = "comperr" -> UNCHANGED svars
+      [] e.op = "conc"  -> ConcReweightA(e.ids, [j \in 1..Len(e.seqs) |-> Count(e.seqs[j])])
 
 (* judged on the primed (post-step) state *)
 ShapeOK(e) == /\ \A h \in Handles : hA'[h].live = e.obs.handles[Key(h)].live
@@ -38,6 +39,8 @@ AsBuiltOK(e) == /\ \A h \in Handles : hA'[h].live => Matches(FromSparse(e.obs.ha
                 /\ \A j \in 1..Len(e.obs.fresh) : FromSparse(e.obs.fresh[j].w) = heap'[StoreAddr(e.obs.fresh[j].i)]
 Verdict(e) ==
     IF e.op = "reset" THEN [v |-> "ok", why |-> ""]
+    ELSE IF e.op = "conc" /\ \E j \in 1..Len(e.ids) : FromSparse(e.results[j]) # Count(e.seqs[j])
+         THEN [v |-> "bad", why |-> "a table re-weighted concurrently with tables of other ids does not hold exactly its own counts"]
     ELSE IF e.op = "comperr" THEN [v |-> "bad", why |-> "CompromiseCodonTable rejected a cut-off inside 0..1"]
     ELSE IF ~ShapeOK(e) THEN [v |-> "bad", why |-> "a table lost its shape or its codon -> amino-acid assignment"]
     ELSE IF IdealOK(e) THEN [v |-> "ok", why |-> ""]
